@@ -10,6 +10,7 @@ import (
 	"encoding/json"
 	"errors"
 	"fmt"
+	"os"
 	"regexp"
 	"sort"
 	"strings"
@@ -112,8 +113,8 @@ func runVPJob(j *c9VPJob, from int, cb func(sub int, label string, f func() any)
 			select {
 			case x := <-ch:
 				r.VecOut, r.VecCErr, r.VecErr = x.out, x.cerr, x.rerr
-			case <-time.After(40 * time.Second):
-				r.VecErr = "HANG: no result after 40s"
+			case <-time.After(watchdog(40)):
+				r.VecErr = "HANG: no result within the watchdog"
 			}
 			so, serr := RunQuery(p.Src, j.Input)
 			r.SeqOut = so
@@ -692,6 +693,16 @@ func vpTriggers(p c9VProg, input string) []string {
 		t = append(t, "over-in-pipeline")
 	}
 	sort.Strings(t)
+	if len(t) > 1 {
+		// hex-base64 is named only when it is the sole trigger
+		var u []string
+		for _, x := range t {
+			if x != "hex-base64" {
+				u = append(u, x)
+			}
+		}
+		t = u
+	}
 	return t
 }
 
@@ -735,6 +746,28 @@ func c09VProg(o Opts, rng *Rng, res *Result) error {
 	outs, crashes, err := runJobs(o.Out, "vprog", jobs, 150*time.Second)
 	if err != nil {
 		return err
+	}
+	for i := range outs {
+		var r c9VPRun
+		if json.Unmarshal(outs[i].Data, &r) != nil || !strings.HasPrefix(r.VecErr, "HANG") {
+			continue
+		}
+		vj := jobs[outs[i].Job].VP
+		one := &c9VPJob{Class: vj.Class, Input: vj.Input, Progs: []c9VProg{vj.Progs[r.P]}}
+		os.Setenv("C09_SLOW", "1")
+		o2, _, err := runJobs(o.Out, "vprog-recheck", []c9Job{{Kind: "vprog", VP: one}}, 600*time.Second)
+		os.Unsetenv("C09_SLOW")
+		res.Count("vprog_hang_rechecked")
+		if err != nil || len(o2) != 1 {
+			continue
+		}
+		var r2 c9VPRun
+		if json.Unmarshal(o2[0].Data, &r2) == nil {
+			r2.P = r.P
+			if b, err := json.Marshal(r2); err == nil {
+				outs[i].Data = b
+			}
+		}
 	}
 	for _, c := range crashes {
 		vj := jobs[c.Job].VP
